@@ -30,6 +30,15 @@ FILES = {
     "appnotes/register_crypto_plugin/__init__.py": ["C16", "C09", "C19", "C08", "C06", "C07", "C14"],
     "appnotes/register_crypto_plugin/pyaes/aes.py": ["C16"],
     "appnotes/register_crypto_plugin/pyaes/blockfeeder.py": ["C16"],
+    "appnotes/register_crypto_plugin/ecdsa/keys.py": ["C19", "C18", "C17", "C09"],
+    "appnotes/register_crypto_plugin/ecdsa/der.py": ["C19", "C18"],
+    "appnotes/register_crypto_plugin/ecdsa/ecdh.py": ["C17", "C09"],
+    "appnotes/register_crypto_plugin/ecdsa/rfc6979.py": ["C18"],
+    "appnotes/register_crypto_plugin/ecdsa/ecdsa.py": ["C18", "C17", "C19"],
+    "appnotes/register_crypto_plugin/ecdsa/ellipticcurve.py": ["C17", "C20", "C19", "C18"],
+    "appnotes/register_crypto_plugin/ecdsa/util.py": ["C18", "C19"],
+    "appnotes/register_crypto_plugin/ecdsa/_rwlock.py": ["C20"],
+    "appnotes/register_crypto_plugin/ecdsa/numbertheory.py": ["C17", "C19", "C18"],
 }
 SKIP_FUNCS = {"__repr__", "__str__x"}
 CMP = {ast.Eq: ast.NotEq, ast.NotEq: ast.Eq, ast.Lt: ast.LtE, ast.LtE: ast.Lt, ast.Gt: ast.GtE, ast.GtE: ast.Gt, ast.In: ast.NotIn, ast.NotIn: ast.In, ast.Is: ast.IsNot, ast.IsNot: ast.Is}
